@@ -40,13 +40,21 @@ func c18kKinds() []c18kKind {
 			},
 			remove: func(s *Server, ns ...string) { s.RemoveTools(ns...) },
 			list: func(ctx context.Context, cs *ClientSession) ([]string, error) {
-				r, err := cs.ListTools(ctx, nil)
-				if err != nil {
-					return nil, err
-				}
+				// all pages, following the cursors (one page unless the server is configured with a page size)
 				var out []string
-				for _, t := range r.Tools {
-					out = append(out, t.Name)
+				cursor := ""
+				for page := 0; page < 20; page++ {
+					r, err := cs.ListTools(ctx, &ListToolsParams{Cursor: cursor})
+					if err != nil {
+						return nil, err
+					}
+					for _, t := range r.Tools {
+						out = append(out, t.Name)
+					}
+					if r.NextCursor == "" {
+						break
+					}
+					cursor = r.NextCursor
 				}
 				return out, nil
 			}},
@@ -56,13 +64,21 @@ func c18kKinds() []c18kKind {
 			},
 			remove: func(s *Server, ns ...string) { s.RemovePrompts(ns...) },
 			list: func(ctx context.Context, cs *ClientSession) ([]string, error) {
-				r, err := cs.ListPrompts(ctx, nil)
-				if err != nil {
-					return nil, err
-				}
+				// all pages, following the cursors (one page unless the server is configured with a page size)
 				var out []string
-				for _, p := range r.Prompts {
-					out = append(out, p.Name)
+				cursor := ""
+				for page := 0; page < 20; page++ {
+					r, err := cs.ListPrompts(ctx, &ListPromptsParams{Cursor: cursor})
+					if err != nil {
+						return nil, err
+					}
+					for _, p := range r.Prompts {
+						out = append(out, p.Name)
+					}
+					if r.NextCursor == "" {
+						break
+					}
+					cursor = r.NextCursor
 				}
 				return out, nil
 			}},
@@ -80,13 +96,21 @@ func c18kKinds() []c18kKind {
 				s.RemoveResources(uris...)
 			},
 			list: func(ctx context.Context, cs *ClientSession) ([]string, error) {
-				r, err := cs.ListResources(ctx, nil)
-				if err != nil {
-					return nil, err
-				}
+				// all pages, following the cursors (one page unless the server is configured with a page size)
 				var out []string
-				for _, p := range r.Resources {
-					out = append(out, p.Name)
+				cursor := ""
+				for page := 0; page < 20; page++ {
+					r, err := cs.ListResources(ctx, &ListResourcesParams{Cursor: cursor})
+					if err != nil {
+						return nil, err
+					}
+					for _, p := range r.Resources {
+						out = append(out, p.Name)
+					}
+					if r.NextCursor == "" {
+						break
+					}
+					cursor = r.NextCursor
 				}
 				return out, nil
 			}},
@@ -104,13 +128,21 @@ func c18kKinds() []c18kKind {
 				s.RemoveResourceTemplates(uris...)
 			},
 			list: func(ctx context.Context, cs *ClientSession) ([]string, error) {
-				r, err := cs.ListResourceTemplates(ctx, nil)
-				if err != nil {
-					return nil, err
-				}
+				// all pages, following the cursors (one page unless the server is configured with a page size)
 				var out []string
-				for _, p := range r.ResourceTemplates {
-					out = append(out, p.Name)
+				cursor := ""
+				for page := 0; page < 20; page++ {
+					r, err := cs.ListResourceTemplates(ctx, &ListResourceTemplatesParams{Cursor: cursor})
+					if err != nil {
+						return nil, err
+					}
+					for _, p := range r.ResourceTemplates {
+						out = append(out, p.Name)
+					}
+					if r.NextCursor == "" {
+						break
+					}
+					cursor = r.NextCursor
 				}
 				return out, nil
 			}},
@@ -118,8 +150,11 @@ func c18kKinds() []c18kKind {
 }
 
 // c18kServer: every list result and read result carries the given TTL.
+// c18kPageSize, if not 0, is the page size of the servers built by c18kServer.
+var c18kPageSize = 0
+
 func c18kServer(ttl int) *Server {
-	s := NewServer(&Implementation{Name: "srv", Version: "1"}, &ServerOptions{Logger: quietLogger,
+	s := NewServer(&Implementation{Name: "srv", Version: "1"}, &ServerOptions{Logger: quietLogger, PageSize: c18kPageSize,
 		SubscribeHandler:   func(context.Context, *SubscribeRequest) error { return nil },
 		UnsubscribeHandler: func(context.Context, *UnsubscribeRequest) error { return nil },
 	})
@@ -251,6 +286,78 @@ func c18kListCase(k c18kKind, version string, ttl int) (obs, sig, msg string) {
 		}
 	}
 	return fmt.Sprintf("%s ok", k.name), "", ""
+}
+
+// c18kPagedCase: the list spans several pages (page size 1 or 2, items a..d) and the client has walked
+// all of them (with a positive TTL they are cached page by page).  Changes that leave the first page as
+// it was - the last item removed, an item appended, a middle item replaced - are announced; a walk after
+// the notification was handled shows the server's current list.
+func c18kPagedCase(k c18kKind, version string, ttl, pageSize int) (obs, sig, msg string) {
+	fail := func(s, format string, a ...any) (string, string, string) {
+		return "", fmt.Sprintf("c18 kinds %s paged %s", k.name, s), fmt.Sprintf(format, a...) + fmt.Sprintf(" [kind=%s version=%s ttl=%dms page size %d]", k.name, version, ttl, pageSize)
+	}
+	ctx := context.Background()
+	c18kPageSize = pageSize
+	defer func() { c18kPageSize = 0 }()
+	s := c18kServer(ttl)
+	for _, kk := range c18kKinds() {
+		kk.add(s, "a")
+	}
+	want := []string{"a", "b", "c", "d"}
+	for _, n := range want[1:] {
+		k.add(s, n)
+	}
+	var n c18kCounts
+	cs, err := c18kConnect(s, version, &n)
+	if err != nil {
+		return fail("connect", "%v", err)
+	}
+	defer cs.Close()
+	synctest.Wait()
+	count := func() int {
+		switch k.note {
+		case "tools":
+			return n.tools
+		case "prompts":
+			return n.prompts
+		}
+		return n.resources
+	}
+	check := func(stage string) (string, string, string) {
+		got, err := k.list(ctx, cs)
+		if err != nil {
+			return fail("list-failed", "%s: %v", stage, err)
+		}
+		sort.Strings(got)
+		if !slices.Equal(got, want) {
+			return fail("list-after-notification-stale "+stage, "%s: walking the pages returned %v, the server has %v", stage, got, want)
+		}
+		return "", "", ""
+	}
+	if o, sg, m := check("initially"); sg != "" {
+		return o, sg, m
+	}
+	for _, step := range []string{"remove d", "add e", "remove c", "add f", "remove f+absent", "add d"} {
+		before := count()
+		if name, ok := strings.CutPrefix(step, "add "); ok {
+			k.add(s, name)
+			want = append(want, name)
+		} else {
+			names := strings.Split(strings.TrimPrefix(step, "remove "), "+")
+			k.remove(s, names...)
+			want = slices.DeleteFunc(want, func(s string) bool { return slices.Contains(names, s) })
+		}
+		sort.Strings(want)
+		time.Sleep(time.Second)
+		synctest.Wait()
+		if count() == before {
+			return fail("notification-lost "+step, "after %q no %s list-changed notification was handled", step, k.note)
+		}
+		if o, sg, m := check("after " + step); sg != "" {
+			return o, sg, m
+		}
+	}
+	return fmt.Sprintf("%s paged ok", k.name), "", ""
 }
 
 func c18kReadCase(version string, ttl int) (obs, sig, msg string) {
@@ -599,6 +706,13 @@ func TestVerifC18Kinds(t *testing.T) {
 				run(fmt.Sprintf("read version=%s ttl=%d transport=%s", version, ttl, tr), via(func() (string, string, string) { return c18kReadCase(version, ttl) }))
 			}
 			run(fmt.Sprintf("listen-independence version=%s transport=%s", version, tr), via(func() (string, string, string) { return c18kListenIndependence(version) }))
+			if tr == "inmem" && (version == "2025-06-18" || version == "2026-07-28") {
+				for _, k := range c18kKinds() {
+					for _, ps := range []int{1, 2} {
+						run(fmt.Sprintf("paged list kind=%s version=%s page size %d", k.name, version, ps), via(func() (string, string, string) { return c18kPagedCase(k, version, 60000, ps) }))
+					}
+				}
+			}
 		}
 		if tr == "inmem" {
 			for _, version := range []string{"2024-11-05", "2025-03-26", "2025-06-18", "2025-11-25", "2026-07-28", "2029-01-01", "1999-01-01", ""} {
